@@ -1173,11 +1173,14 @@ func (c *ConcCtx) build(e *Exec) {
 			add(lt(t.spawnEv.Clk, first.Clk))
 		}
 		// every spawned thread runs to completion along one of its paths (quiescent executions)
-		if len(t.finals) == 0 {
+		// (a path that ends in an escaping panic is a way of finishing too: otherwise the thread's no-panic obligations
+		// would be vacuous - its path condition contradicting this constraint)
+		ends := append(append([]*Term(nil), t.finals...), t.panics...)
+		if len(ends) == 0 {
 			add(Not(t.guard)) // the thread can never finish within the bounds: executions spawning it are excluded
 			e.issues = append(e.issues, Issue{"bound", fmt.Sprintf("thread %s has no completing path within the unroll bound", t.name)})
 		} else {
-			add(Implies(t.guard, Or(t.finals...)))
+			add(Implies(t.guard, Or(ends...)))
 		}
 	}
 	// group events by location
@@ -1471,6 +1474,15 @@ func (c *ConcCtx) encodeChans(e *Exec, byLoc map[string][]*Event, add func(*Term
 			for i, r := range recvs {
 				var armed []*Term
 				for _, a := range arms {
+					if hz := c.e.cfg["horizon"]; hz != "" && a.Val != nil && a.Val.IsConst() {
+						// stated bound: the modelled execution is shorter than the horizon, so a ticker/timer whose
+						// period/delay is at least that long does not deliver within it
+						var h int64
+						fmt.Sscan(hz, &h)
+						if h > 0 && a.Val.SVal() >= h {
+							continue
+						}
+					}
 					conj := []*Term{c.gd(a), lt(a.Clk, r.Clk)}
 					if !realTime {
 						// idealised: a value is only delivered while the timer is armed (no stop in between); real
@@ -1551,6 +1563,22 @@ func (c *ConcCtx) encodeChans(e *Exec, byLoc map[string][]*Event, add func(*Term
 			}
 			add(Implies(c.gd(r), Or(opts...)))
 		}
+		// buffered channel: a send completes only while fewer than cap values are in the buffer (values sent before it
+		// minus values received before it)
+		if ci != nil && ci.cap > 0 {
+			for _, s := range sends {
+				inbuf := IntConst(0)
+				for _, s2 := range sends {
+					if s2 != s {
+						inbuf = App("+", IntSort, inbuf, Ite(And(c.gd(s2), lt(s2.Clk, s.Clk)), IntConst(1), IntConst(0)))
+					}
+				}
+				for _, r := range recvs {
+					inbuf = App("-", IntSort, inbuf, Ite(And(c.gd(r), r.Read, lt(r.Clk, s.Clk)), IntConst(1), IntConst(0)))
+				}
+				add(Implies(c.gd(s), App("<", BoolSort, inbuf, IntConst(int64(ci.cap)))))
+			}
+		}
 		// unbuffered / full-buffer sends must be received for the sender to proceed (quiescent executions)
 		if ci == nil || ci.cap == 0 {
 			for _, s := range sends {
@@ -1563,9 +1591,17 @@ func (c *ConcCtx) encodeChans(e *Exec, byLoc map[string][]*Event, add func(*Term
 				add(Implies(c.gd(s), Or(opts...)))
 			}
 		}
-		// at most one close
-		for i := 0; i < len(closes); i++ {
+		// at most one close (an obligation of the complete-execution encoding only)
+		for i := 0; i < len(closes) && !c.prefix; i++ {
 			for j := i + 1; j < len(closes); j++ {
+				if os.Getenv("VERIF_CONCDEBUG") != "" {
+					if r, _ := e.solver.Check([]*Term{closes[i].Guard, closes[j].Guard}, 10000, false); r != "unsat" {
+						fmt.Fprintf(os.Stderr, "CO-SATISFIABLE (%s) closes #%d / #%d:\n  %s\n  %s\n", r, closes[i].ID, closes[j].ID, closes[i].Guard.str(30), closes[j].Guard.str(30))
+					}
+				}
+				if false {
+					fmt.Fprintf(os.Stderr, "double-close candidates on %s: #%d (thread %d, %s) guard %s\n   and #%d (thread %d, %s) guard %s\n", loc, closes[i].ID, closes[i].Thread, closes[i].Site, closes[i].Guard.str(6), closes[j].ID, closes[j].Thread, closes[j].Site, closes[j].Guard.str(6))
+				}
 				e.addOblig(&Obligation{ID: e.harness + ".no_double_close", Kind: "assert", PC: And(c.gd(closes[i]), c.gd(closes[j])), Cond: False, Site: closes[j].Site})
 			}
 		}
@@ -1875,6 +1911,24 @@ func (c *ConcCtx) buildPrefix(e *Exec) {
 				}
 			}
 			return Eq(sum, IntConst(0))
+		case "send":
+			// buffered channel: enabled while the buffer (executed sends - executed successful receives) is not full
+			var id int
+			fmt.Sscanf(ev.Loc, "ch:%d", &id)
+			ci := c.chans[id]
+			if ci == nil || ci.cap == 0 {
+				return True
+			}
+			inbuf := IntConst(0)
+			for _, o := range evs {
+				switch o.Kind {
+				case "send":
+					inbuf = App("+", IntSort, inbuf, Ite(x(o), IntConst(1), IntConst(0)))
+				case "recv":
+					inbuf = App("-", IntSort, inbuf, Ite(And(x(o), o.Read), IntConst(1), IntConst(0)))
+				}
+			}
+			return App("<", BoolSort, inbuf, IntConst(int64(ci.cap)))
 		case "recv":
 			var id int
 			fmt.Sscanf(ev.Loc, "ch:%d", &id)
@@ -1937,7 +1991,15 @@ func (c *ConcCtx) buildPrefix(e *Exec) {
 			if t.spawnEv != nil && ev == evs[0] {
 				continue
 			}
-			if !isBlockingKind(ev.Kind) {
+			blocking := isBlockingKind(ev.Kind)
+			if ev.Kind == "send" {
+				var id int
+				fmt.Sscanf(ev.Loc, "ch:%d", &id)
+				if ci := c.chans[id]; ci != nil && ci.cap > 0 && ci.kind == "" {
+					blocking = true // a send on a buffered channel blocks while the buffer is full
+				}
+			}
+			if !blocking {
 				add(Not(next)) // non-blocking steps are always taken
 				continue
 			}
